@@ -5,6 +5,7 @@ package main
 import (
 	"fmt"
 	"os"
+	"runtime/debug"
 
 	"github.com/z7zmey/php-parser/pkg/ast"
 	"github.com/z7zmey/php-parser/pkg/visitor/formatter"
@@ -15,7 +16,7 @@ func init() { commands["fmt-dump"] = fmtDump }
 func formatSafe(root ast.Vertex) (pan string) {
 	defer func() {
 		if e := recover(); e != nil {
-			pan = fmt.Sprint(e)
+			pan = fmt.Sprint(e) + " @" + panicSite(string(debug.Stack()))
 		}
 	}()
 	root.Accept(formatter.NewFormatter())
